@@ -155,7 +155,7 @@ def conclude(pid, tier, seed, t0, viol, drift, cov, assumptions, jobs_by_id, sig
         k = [f for f in known['findings'] if f.get('status') == 'known' and f['property'] == pid and f['signature'] == sig]
         (hits if k else new).append((v, sig))
     for sig in sorted({sig for v, sig in hits}):
-        desc = [f for f in known['findings'] if f['property'] == pid and f['signature'] == sig][0].get('what', '')
+        desc = [f for f in known['findings'] if f['property'] == pid and f.get('signature') == sig][0].get('what', '')
         print('KNOWN-FINDING: property=%s %s: %s (%d occurrences)' % (pid, sig, desc, len([1 for v, s2 in hits if s2 == sig])))
     for d in drift[:10]:
         print('DRIFT %s run=%s step=%s' % (d['id'], d['run'], d['step']))
@@ -440,6 +440,8 @@ def conc_jobs(work, seed, n, nblocks=6, per=2, readers=8, sweep=False):
         txs = hists[(i + seed) % len(hists)]
         shape = [per] * min(nblocks, max(1, len(txs) // per))
         jobs.append(dict(id='C20-c%d' % i, cfg={}, blocks=shape_history(txs, shape), noise=txs[:3], readers=readers, sweep=sweep))
+        # the same run on a node with IAVL fast-node storage disabled (separates the recorded IAVL finding from anything else)
+        jobs.append(dict(id='C20-c%d-nofast' % i, cfg=dict(nofast=True), blocks=shape_history(txs, shape), noise=txs[:3], readers=readers, sweep=sweep))
     return jobs
 
 
